@@ -272,6 +272,32 @@ Section Sim.
       + rewrite upds_other in * by exact Hin. auto.
   Qed.
 
+  (* the same when the image also changes operator attributes (e.g. re-mapped reduction axes) *)
+  Lemma rinv_kept_step_gen2 em em' n n' e1 :
+    rinv em em' -> stepg em n = Some e1 -> n_outs n' = n_outs n ->
+    (forall y, In y (n_outs n) -> rho y = y) -> (forall y, In y (n_outs n) -> em y = None) -> NoDup (n_outs n) ->
+    (forall vs o, lookups V em (n_uses n) = Some vs -> sem (n_op n) (n_attrs n) vs = Some o -> length o = length (n_outs n) ->
+       exists vs' o', lookups V em' (n_uses n') = Some vs' /\ sem (n_op n') (n_attrs n') vs' = Some o' /\ rel_list (n_outs n) o o') ->
+    exists e1', stepg em' n' = Some e1' /\ rinv e1 e1'.
+  Proof.
+    intros Hi Hs Hout Hrho Hfresh Hnd Hsem. unfold step in *. rewrite Hout.
+    destruct (lookups V em (n_uses n)) as [vs|] eqn:El; [|discriminate].
+    destruct (sem (n_op n) (n_attrs n) vs) as [o|] eqn:Eo; [|discriminate].
+    destruct (Nat.eqb (length o) (length (n_outs n))) eqn:Elen; [|discriminate]. injection Hs as <-.
+    apply Nat.eqb_eq in Elen.
+    destruct (Hsem vs o eq_refl Eo Elen) as (vs' & o' & El' & Eo' & Hro). rewrite El', Eo'.
+    destruct (rel_list_length _ _ _ Hro) as [_ Hl']. rewrite Hl', Nat.eqb_refl.
+    eexists. split; [reflexivity|]. destruct Hi as [Hi1 Hi2]. split.
+    - intros x v Hx. destruct (in_dec Nat.eq_dec x (n_outs n)) as [Hin|Hin].
+      + rewrite (Hrho x Hin). eapply upds_in_rel; eauto.
+      + rewrite upds_other in Hx by exact Hin. destruct (Hi1 _ _ Hx) as (w & Ew & Hr).
+        exists w. split; auto. rewrite upds_other; auto.
+        intro Hin'. assert (Hd : em (rho x) <> None) by (apply Hi2; congruence). apply Hd. now apply Hfresh.
+    - intros y Hy. destruct (in_dec Nat.eq_dec y (n_outs n)) as [Hin|Hin].
+      + apply upds_defined; auto.
+      + rewrite upds_other in * by exact Hin. auto.
+  Qed.
+
   (* a dropped single-output node: its output must already be matched in the new run *)
   Lemma rinv_dropped_step em em' n y e1 :
     rinv em em' -> stepg em n = Some e1 -> n_outs n = [y] -> em y = None ->
